@@ -52,9 +52,9 @@ def check(prog, run):
     run.obs[before:] = [o for o in run.obs[before:] if o.fn == fi.qual]
 
 
-def _unit_axis_form(prog, fi, e, params):
+def _unit_axis_form(prog, fi, e, params, at=None):
     """classify an operand: returns (base param name, position of the unit axis, position of channel axis) or None"""
-    x = astq.expand(fi, e, stop=params)
+    x = astq.expr_at(fi, at, e) if at is not None else astq.expand(fi, e, stop=params)
     if isinstance(x, ast.Call) and isinstance(x.func, ast.Attribute) and x.func.attr == "reshape" and isinstance(x.func.value, ast.Name):
         args = x.args[0].elts if len(x.args) == 1 and isinstance(x.args[0], (ast.Tuple, ast.List)) else x.args
         ones = [i for i, a in enumerate(args) if isinstance(a, ast.Constant) and a.value == 1]
@@ -84,11 +84,15 @@ def pairing(prog, run, fi, f):
     for i, c in enumerate(csds):
         x0 = astq.kwarg(c, "x", 0)
         y0 = astq.kwarg(c, "y", 1)
-        a = _unit_axis_form(prog, fi, x0, pos) if x0 is not None else None
-        b = _unit_axis_form(prog, fi, y0, pos) if y0 is not None else None
+        if c.args and isinstance(c.args[0], ast.Starred):
+            # csd(*pair(...), ...): the pair is a two-tuple (possibly returned by a helper)
+            t = astq.expr_at(fi, c, c.args[0].value)
+            x0, y0 = (t.elts[0], t.elts[1]) if isinstance(t, ast.Tuple) and len(t.elts) == 2 else (None, None)
+        a = _unit_axis_form(prog, fi, x0, pos, c) if x0 is not None else None
+        b = _unit_axis_form(prog, fi, y0, pos, c) if y0 is not None else None
         cfg = f"csd#{i}"
         if a is None or b is None:
-            run.ob("R-pairing", fi.qual, "operands", None, f"operand form not recognised: `{astq.src(x0)}`, `{astq.src(y0)}`", file=f, node=c, config=cfg)
+            run.ob("R-pairing", fi.qual, "operands", None, f"operand form not recognised: `{astq.src(x0) if x0 is not None else None}`, `{astq.src(y0) if y0 is not None else None}`", file=f, node=c, config=cfg)
             continue
         ok = a[0] == p_all and b[0] == p_ref
         run.ob("R-pairing", fi.qual, "first operand (conjugated) derives from Yall, second from Yref", ok,
